@@ -8,10 +8,13 @@ Norm(n, d) == LET g == Gcd(Abs(n), Abs(d))  s == IF d < 0 THEN -1 ELSE 1 IN
               IF n = 0 THEN <<0, 1>> ELSE <<s * (n \div g), s * (d \div g)>>
 R(n, d) == Norm(n, d)
 Z(n) == <<n, 1>>
-RAdd(a, b) == Norm(a[1]*b[2] + b[1]*a[2], a[2]*b[2])
+\* (least common denominator and cross-cancellation keep the intermediate products inside TLC's 32-bit integers)
+RAdd(a, b) == LET g == Gcd(a[2], b[2])  l == (a[2] \div g) * b[2] IN Norm(a[1] * (l \div a[2]) + b[1] * (l \div b[2]), l)
 RNeg(a) == <<-a[1], a[2]>>
 RSub(a, b) == RAdd(a, RNeg(b))
-RMul(a, b) == Norm(a[1]*b[1], a[2]*b[2])
+RMul(a, b) == LET g1 == Gcd(Abs(a[1]), b[2])  g2 == Gcd(Abs(b[1]), a[2])
+                  h1 == IF g1 = 0 THEN 1 ELSE g1  h2 == IF g2 = 0 THEN 1 ELSE g2 IN
+              Norm((a[1] \div h1) * (b[1] \div h2), (a[2] \div h2) * (b[2] \div h1))
 RInv(a) == Norm(a[2], a[1])
 RDiv(a, b) == RMul(a, RInv(b))
 RLt(a, b) == a[1]*b[2] < b[1]*a[2]
